@@ -1,7 +1,7 @@
 """Shared engine of C04/C05/C06: value multisets -> real get_type/shrink_types vs the Lean `infer`."""
 import itertools
 
-from .. import classes, leanio, oracle, sexp, shrinker, tyconv, values
+from .. import classes, framework, leanio, oracle, sexp, shrinker, tyconv, values
 from ..sexp import Q
 
 KS_ALL = (0, 1, 2, 3, 10, 200)
@@ -97,7 +97,9 @@ class Engine:
         return objs, ds
 
     def impl_infer(self, objs, k):
-        return self.shrink_types([self.get_type(o, k) for o in objs], k)
+        # "inference terminates": a call that loops is a failing input (DidNotTerminate), not a timeout of the whole check
+        with framework.time_limit(30):
+            return self.shrink_types([self.get_type(o, k) for o in objs], k)
 
     def impl_tree(self, objs, k):
         return tyconv.canon(tyconv.ty_to_tree(self.impl_infer(objs, k), self.tbl))
